@@ -116,7 +116,7 @@ func K4(rc *RC, files []string, floor int) {
 			}
 			label := arm.Kinds[0]
 			c := ir.NewCanon(rc.P.Fset, fi.Pkg.TypesInfo, ir.Options{ElemType: kindType(label), EraseInt: true, Suffix: spec.SuffixOf(label), TokKind: TokensOf(rc.P).Tok, Kind: label, HasKind: true, BitSize: bitSize(label), MapCallee: erase})
-			text := canonArm(c, fi.Decl, arm.Clause.Body)
+			text := ir.Render(k4Fold(c.Stmts(fi.Decl, arm.Clause.Body)))
 			text = erase(eraseInStrings(text, op)) // kernel names resolved as type tokens bypass MapCallee
 			// integer division reports an error its siblings do not have
 			text = strings.ReplaceAll(text, "$ret0 = ", "")
@@ -213,4 +213,61 @@ func K4(rc *RC, files []string, floor int) {
 			}
 		}
 	}
+}
+
+// k4Fold is a normal form for the comparison of sibling arms: a branch of an if/else-if chain
+// (or a case of a tagless switch) whose body is the body of the chain's final else (default) is
+// dropped - `case as && bs: K(a, b)` in front of `default: K(a, b)` says nothing the default does
+// not say. One operation's dispatcher may spell the redundant case out and its sibling may not.
+func k4Fold(ns []*ir.Node) []*ir.Node {
+	var out []*ir.Node
+	for _, n := range ns {
+		out = append(out, k4FoldNode(n)...)
+	}
+	return out
+}
+
+func k4FoldNode(n *ir.Node) []*ir.Node {
+	switch n.Kind {
+	case "if":
+		n.Kids = k4Fold(n.Kids)
+		if n.Else != nil {
+			n.Else = k4Fold(n.Else)
+			// the final else of the chain
+			last := n.Else
+			for len(last) == 1 && last[0].Kind == "if" && last[0].Else != nil {
+				last = last[0].Else
+			}
+			if len(n.Else) == 1 && n.Else[0].Kind == "if" && k4Body(n.Kids) == k4Body(last) {
+				return n.Else
+			}
+		}
+	case "switch":
+		var deflt *ir.Node
+		for _, k := range n.Kids {
+			k.Kids = k4Fold(k.Kids)
+			if k.Head == "default" {
+				deflt = k
+			}
+		}
+		if deflt != nil && strings.TrimSpace(n.Head) == "switch" {
+			var kids []*ir.Node
+			for _, k := range n.Kids {
+				if k != deflt && k4Body(k.Kids) == k4Body(deflt.Kids) {
+					continue
+				}
+				kids = append(kids, k)
+			}
+			n.Kids = kids
+		}
+	case "loop", "range", "case":
+		n.Kids = k4Fold(n.Kids)
+	}
+	return []*ir.Node{n}
+}
+
+// k4Body renders a branch body for the fold comparison (the error result of the integer
+// division kernels is assigned in some branches and dropped in others).
+func k4Body(ns []*ir.Node) string {
+	return strings.ReplaceAll(ir.Render(ns), "$ret0 = ", "")
 }
